@@ -113,7 +113,8 @@ theorem isHalted_step (cfg : Cfg) (p : List Instr) (σ : SSt) (h : isHalted p σ
 theorem checkResolver_sound (p : List Instr) (need : Nat → List Isa) (minBits : List Bit)
     (h : checkResolver p need minBits = true)
     (cfg : Cfg) (hc : Consistent cfg) (hv : Conventions cfg) (hmin : ∀ b ∈ minBits, bitSet cfg b = true) :
-    ∃ s, select p cfg = some (.sym s) ∧ ∀ i ∈ need s, Avail cfg i := by
+    ∃ s, select p cfg = some (.sym s) ∧ (∀ i ∈ need s, Avail cfg i) ∧
+      (run cfg p (4 * p.length) c0).ud = false := by
   unfold checkResolver at h
   cases hp : paths p (4 * p.length) s0 [] with
   | none => rw [hp] at h; cases h
@@ -132,17 +133,31 @@ theorem checkResolver_sound (p : List Instr) (need : Nat → List Isa) (minBits 
       rw [hcl] at hcell
       cases v with
       | sym s =>
-        refine ⟨s, ?_, ?_⟩
-        · simp only [select, ← hev, SSt.ev, hcl, Option.map_some, SVal.ev]
-        · intro i hi b hb
-          simp only [List.all_eq_true] at hcell
-          have := hcell i hi b hb
-          have hmem : b ∈ closure allRules 8 (minBits ++ knownOnes r.1) := by simpa using this
+        simp only [Bool.and_eq_true] at hcell
+        obtain ⟨hxg, hcell⟩ := hcell
+        have hknown : ∀ b, b ∈ closure allRules 8 (minBits ++ knownOnes r.1) → bitSet cfg b = true := by
+          intro b hmem
           refine closure_sound cfg allRules (rulesHold_append hc hv) 8 _ ?_ b hmem
           intro b' hb'
           rcases List.mem_append.mp hb' with h1 | h1
           · exact hmin b' h1
           · exact knownOnes_sound cfg r.1 hall b' h1
+        refine ⟨s, ?_, ?_, ?_⟩
+        · simp only [select, ← hev, SSt.ev, hcl, Option.map_some, SVal.ev]
+        · intro i hi b hb
+          simp only [List.all_eq_true] at hcell
+          have := hcell i hi b hb
+          exact hknown b (by simpa using this)
+        · rw [← hev]
+          simp only [SSt.ev]
+          cases hx : r.2.xg with
+          | false => simp
+          | true =>
+            rw [hx] at hxg
+            have hm : ((Field.l1ecx, 27) : Bit) ∈ closure allRules 8 (minBits ++ knownOnes r.1) := by simpa using hxg
+            have := hknown _ hm
+            simp only [bitSet, Cfg.get] at this
+            simp [this]
       | fld f m => cases hcell
       | const w => cases hcell
       | junk => cases hcell
